@@ -340,7 +340,7 @@ META = dict(
     level="proof",
     level_text="Every scanner/parser function of XML.cpp (isWhite, expect x2, consume x2, consumeComment, makeString, parseString, parseIdentifier, skipWhites, parseProp, skipComment, the recursive parseNode, parseHeader, parseXML) is extracted from /repo and proved, for NUL-terminated buffers of ANY length up to 2^47 bytes (the x86-64 user address space; the only bound, a harness assumption) with arbitrary contents and any cursor position, to keep the cursor inside [buffer, terminator], to dereference only bytes of the buffer (CBMC pointer checks on every *s, s[1], s[2], end[-1]), to terminate in every loop (loop contracts with decreases clauses; parseNode with its own contract assumed at the recursive call) and to leave either normally or with std::runtime_error in flight.",
     level_note="LEAF-LEVEL fidelity is checked by BOUNDED exact contracts (unit c16_values: texts of at most 8 bytes, bounded std::string code model, memcpy as a byte loop): makeString is exactly the bytes [begin,end), parseString yields exactly the bytes between the quotes (escapes skipped as the scanner defines) and throws exactly for an unterminated string, parseIdentifier yields exactly the scanned identifier, parseProp yields exactly name and value of a well-formed name=\"value\" and throws for a malformed one. Above the leaves std::string / std::map / std::vector<Node> / string streams are OPAQUE (values not modelled): how parseNode ASSEMBLES the tree (property map, child order, trimmed content) is NOT verified. isalpha/isdigit/isspace as in the C locale. readXML's file handling (fopen/ftell/fread) is assumed to hand parseXML a buffer of numBytes+1 bytes whose last byte is 0. Recursion depth (stack) is not bounded by the proof. TREE ASSEMBLY in parseNode is checked STRUCTURALLY (unit c16_assembly, x_parseNode#assembly, unbounded text, loop contracts): calls to parseIdentifier / parseProp / parseNode / makeString go through logging wrappers that call the functions under contract and keep a ghost frame; the std operations on the node under construction are recording models. Proved: the first identifier is parsed into the node's own name; every parsed property is stored, once, under the name just parsed with the value just parsed, before the next one is parsed; every parsed child is appended, once, before the next one is parsed (hence in order); the name after '</' is compared with the name parsed after '<'; the content is cut out of the text before the cursor, which stands on '<' or the end, with trailing isspace bytes trimmed, and assigned to the string that was tested for emptiness; name, property map, child list and content belong to the same node object. parseNode requires text left (**s != 0), a fact of every call site. When goto-instrument refuses a new uncontracted loop nested in a contracted one, the function is re-run without loop contracts with every loop unwound 3 times (bounded fallback: failures inside the bound are reported, anything else is inconclusive).",
-    assumptions=["text buffer at most 2^47 bytes", "opaque std containers/strings", "C-locale <cctype>", "readXML passes a NUL-terminated buffer (fread <= numBytes, ftell >= 0)", "allocation never fails"],
+    assumptions=["text buffer at most 2^47 bytes", "opaque std containers/strings (only obligation kept: [first,last) handed to string assign/append is a valid range)", "C-locale <cctype>", "readXML passes a NUL-terminated buffer (fread <= numBytes, ftell >= 0)", "allocation never fails"],
     bounded=["leaf fidelity (unit c16_values: makeString, parseString, parseIdentifier, parseProp): texts of at most 8 bytes, unwind 12"],
     unverified=["the VALUES that flow through the assembly of a node (strings are opaque in unit c16_assembly; their fidelity is the bounded leaf unit)", "std::map semantics of properties[name] (a repeated name overwrites)", "that the returned Node is a faithful copy of the assembled one (copy constructor of Node is opaque)", "where the content starts (only: inside the text, before the cursor)", "parseXML's own child list", "recursion depth / stack", "Writer", "fopen/ftell/fread behaviour"],
 )
